@@ -96,8 +96,13 @@ func FilterObjs(chain []FilterSpec, r *sim.Rand) (filter Obj, parms Obj, hasParm
 func predict(data []byte, f FilterSpec, r *sim.Rand) []byte {
 	bpp := f.Colors // 8 bits per component
 	rowLen := f.Columns * f.Colors
-	if rowLen <= 0 || len(data)%rowLen != 0 {
-		panic(fmt.Sprintf("pdfw: predictor geometry %d does not divide %d", rowLen, len(data)))
+	if rowLen <= 0 {
+		panic(fmt.Sprintf("pdfw: predictor geometry %d", rowLen))
+	}
+	if len(data)%rowLen != 0 {
+		// fault injection may have changed the length after the geometry was chosen:
+		// pad the last row with white space (harmless at the end of a content program)
+		data = append(append([]byte{}, data...), bytes.Repeat([]byte{' '}, rowLen-len(data)%rowLen)...)
 	}
 	rows := len(data) / rowLen
 	if f.Predictor == 2 {
